@@ -11,6 +11,8 @@ mod vm;
 pub mod core_lib;
 pub mod prelude;
 mod send_sync;
+#[cfg(koto_verif)]
+pub mod verif;
 
 pub use crate::{
     display_context::DisplayContext,
